@@ -17,6 +17,10 @@ import GunYu.Proofs.Rdb.Sync
 import GunYu.Proofs.Rdb.Parallel
 import GunYu.Proofs.Rdb.Commute
 import GunYu.Proofs.Rdb.Interleave
+import GunYu.Proofs.Rdb.SyncS
+import GunYu.Proofs.Rdb.Fallback
+import GunYu.Proofs.Rdb.ParallelS
+import GunYu.Proofs.Rdb.StreamPel
 
 namespace GunYu.Props.C03
 open GunYu GunYu.Rdb GunYu.RedisSem
@@ -256,13 +260,15 @@ theorem hash_unsplit_raw_is_encode (cfg : DCfg) (key : SE) (f : LenForm) (items 
   · simp
   · simp [PObj.isSplited]
 
-/-- the keyed fan-out sends all entries of one key — in particular all chunks of
-    one value — to the same worker, whatever was distributed in between; a
-    worker consumes its pipe in FIFO order (Go channel semantics, trusted), so
-    the chunks of a key are applied in snapshot order -/
-theorem fanOut_same_key (n : Nat) (e1 e2 : Entry) (i1 i2 : Nat) (h : e1.key = e2.key)
+/-- the keyed fan-out sends all entries that are REPLAYED TO one key — in particular
+    all chunks of one value, and under `ReplaceHashTag` two snapshot keys that rewrite to
+    one target key (`{a}b`, `ab`; /repo 630424b) — to the same worker, whatever was
+    distributed in between; a worker consumes its pipe in FIFO order (Go channel
+    semantics, trusted), so they are applied in snapshot order -/
+theorem fanOut_same_key (cfg : RCfg) (n : Nat) (e1 e2 : Entry) (i1 i2 : Nat)
+    (h : dstKey cfg e1.key = dstKey cfg e2.key)
     (h1 : otypeOf e1.obj.rtype ≠ some .function) (h2 : otypeOf e2.obj.rtype ≠ some .function) :
-    workerOf n e1 i1 = workerOf n e2 i2 := by
+    workerOf cfg n e1 i1 = workerOf cfg n e2 i2 := by
   simp [workerOf, h1, h2, h]
 
 /-- order is kept per worker: after the fan-out, the request log of EVERY worker
@@ -278,16 +284,10 @@ theorem fanOut_keeps_order (cfg : RCfg) (es : List Entry) (idx : Nat) (ws : List
       (ws.getD j {}).log ++ ((fanOutTrace cfg es idx ws ex).filter (fun p => p.1 == j)).flatMap (·.2) :=
   fanOut_logs cfg es idx ws ex hn j hj
 
-/-! ## Streams (partial: the entries)
+/-! ## Streams
 
-The statement still open for streams is the full `expand_roundtrip` (entries AND
-last id, counters, consumer groups, PELs replayed through XSETID / XGROUP /
-XCLAIM into the oracle). -/
-
-/-- full round trip of a stream value — not yet proved (listed `partial`) -/
-def stream_roundtrip_stmt : Prop :=
-  ∀ (x : XCfg) (k : Bytes) (s : StreamE), s.wf →
-    ∃ cmds v, execStream x s.rtype k s.ser = some cmds ∧ applyCmds [] cmds = some [(k, .stream v, 0)]
+`stream_roundtrip_partial` is the listpack-node level (entries); `stream_roundtrip`
+closes what was `stream_roundtrip_stmt`: the whole value through the oracle. -/
 
 /-- `stream_roundtrip_partial` — the entries: every listpack node of a stream
     (any listpack integer width for counters, flags and id deltas, elements as
@@ -302,6 +302,99 @@ theorem stream_roundtrip_partial (key : Bytes) (nodes : List SNodeE) (rest : Byt
     streamNodes key nodes.length (nodes.flatMap SNodeE.enc ++ rest) =
       some (nodes.flatMap (fun n => n.live.map (fun p => cmdB b!"XADD" (key :: p.1 :: p.2))), rest) :=
   streamNodes_spec key nodes rest hwf
+
+/-- **`stream_roundtrip`** (was the open `stream_roundtrip_stmt`) — for every stream
+    description `s` of RDB type 15 / 19 / 21 / 26 that is well-formed (`StreamE.wf`) and
+    `sound` (what a Redis server guarantees: ids without 64-bit wrap-around, above 0-0 and
+    strictly increasing, none above the last id; `length` = number of live entries; every
+    entry has a field; entries-added a long long ≥ length; max-deleted id ≤ last id;
+    entries-read ≥ -1; delivery times long longs; distinct group names, distinct consumer
+    names; a pending id owned by one consumer), every target version and whatever follows:
+    (1) `StreamParser.ExecCmd` expands the serialization into EXACTLY `s.cmds` — one
+        `XADD key id f v …` per live entry, `XADD key MAXLEN 0 0-1 x y` iff the stream is
+        empty, `XSETID key last [ENTRIESADDED n MAXDELETEDID id]` (counters iff target ≥ 7;
+        for type 15: n = length, id = 0-0), and per group `XGROUP CREATE key g last
+        [ENTRIESREAD r]` (target ≥ 7; `r` signed, -1 = unknown; for type 15 the tool's
+        estimate), then per consumer one `XCLAIM key g consumer 0 id TIME t RETRYCOUNT c JUSTID
+        FORCE` per entry of its PEL, `t`, `c` from the group's PEL (NOTHING for a consumer
+        with an empty PEL: known finding C03-F1);
+    (2) replayed through the oracle — which follows t_stream.c: XSETID's range checks,
+        XGROUP CREATE's ENTRIESREAD check, XCLAIM FORCE creating a pending entry ONLY for an
+        id that is an entry of the stream — into any keyspace that does not hold the key,
+        these commands leave exactly the logical value `s.xval`: entries with ids and field
+        lists in order, last id, entries-added, max-deleted id, every group with its
+        last-delivered id, entries-read, its consumers (`consumersX`) and its pending entries
+        with owner, delivery time and count RESTRICTED TO THE IDS THAT ARE STILL ENTRIES OF
+        THE STREAM (`pelX`); no time to live, every other key untouched.
+    LOST on the expansion path (kept by the RESTORE path; stated by the shape of `xval`):
+    pending ids whose entry was deleted or trimmed — ordinary production data, but no
+    command recreates them (Redis' own AOF rewrite loses them the same way); a consumer all
+    of whose pending ids are such; a consumer with an EMPTY PEL (known finding C03-F1: the
+    tool emits no XGROUP CREATECONSUMER although a 6.2+ target could hold it, `consumersIdeal`;
+    XINFO CONSUMERS then differs between the RESTORE path and the expansion path); seen-time /
+    active-time; the IDMP state of type 26. The first-id field is recomputed by the target. -/
+theorem stream_roundtrip (x : XCfg) (k : Bytes) (s : StreamE) (rest : Bytes) (ks : Keyspace)
+    (hwf : s.wf) (hs : s.sound) (hfresh : get ks k = none) :
+    execStream x s.rtype k (s.ser ++ rest) = some (s.cmds x k) ∧
+    applyCmds ks (s.cmds x k) = some (ks ++ [(k, .stream (s.xval x), 0)]) :=
+  ⟨execStream_ser x k s rest hwf hs, stream_cmds_apply ks k x s hwf hs hfresh⟩
+
+/-- the pending entries in `StreamE.xval` — listed consumer by consumer, the order the
+    XCLAIMs are issued in — are, as a set, EXACTLY the group's PEL as a server holds it
+    (`pelLogical`: every record of the group's PEL whose id is still an entry of the stream,
+    with its delivery time, delivery count and the one consumer whose PEL lists it), given
+    what Redis guarantees of it
+    (`pelPartition`: one record per id, the consumers' PELs partition the group's) -/
+theorem stream_pel_logical (x : XCfg) (s : StreamE) (g : SGroupE) (hp : g.pelPartition) :
+    (g.xgroup x s).pel.Perm (g.pelLogical s) := pelX_perm_logical s g hp
+
+/-- the test the driver applies to every generated stream before the harness compares
+    `StreamE.cmds` / `StreamE.xval` with the real code (`soundB`, computable) implies the
+    hypothesis `sound` of `stream_roundtrip` and `full_sync_streams` -/
+theorem sound_test_sound (s : StreamE) (h : s.soundB = true) : s.sound := soundB_sound s h
+
+/-- `stream_roundtrip` in the shape of `expand_roundtrip`: `ExecCmd` on the parser object
+    `ReadBuffer` built, replayed into an empty keyspace -/
+theorem stream_expand_roundtrip (x : XCfg) (k : Bytes) (s : StreamE) (hwf : s.wf) (hs : s.sound) :
+    ∃ cmds, execCmd x (pobjOf k (.stream s)) = some cmds ∧
+      applyCmds [] cmds = some [(k, .stream (s.xval x), 0)] := by
+  obtain ⟨h1, h2⟩ := stream_roundtrip x k s [] [] hwf hs rfl
+  refine ⟨s.cmds x k, ?_, by simpa using h2⟩
+  have hot : otypeOf (pobjOf k (ObjE.stream s)).rtype = some .stream :=
+    (opaque_rtype (.stream s) ⟨hwf, hs⟩).1
+  unfold execCmd
+  simp only [hot]
+  simpa [pobjOf, ObjE.rtype, ObjE.ser] using h1
+
+/-- `raw_is_encode` for streams and module values (type 7): `ReadBuffer` after the key
+    consumes exactly the serialization — every listpack node, the counters, all groups
+    with PELs and consumers, the IDMP state of type 26; module id, items and EOF opcode
+    of a module payload — and stores it as the parser's buffer, so their RESTORE payload
+    is byte for byte type + serialization + footer -/
+theorem raw_is_encode_opaque (cfg : DCfg) (key : SE) (o : ObjE) (rest : Bytes)
+    (hkey : key.wf) (ho : o.opaque) :
+    readBuffer cfg {} o.rtype (key.enc ++ (o.ser ++ rest)) = some (pobjOf key.val o, {}, rest) ∧
+      (pobjOf key.val o).buf = o.ser ∧ (pobjOf key.val o).key = key.val ∧
+      (pobjOf key.val o).dump = createValueDump o.rtype o.ser :=
+  ⟨readBuffer_opaque cfg {} key o rest ⟨rfl, rfl⟩ hkey ho, rfl, rfl, rfl⟩
+
+/-- `Loader.Next` on a key item holding a stream or a module value: ONE entry, never
+    split, with key, DB, absolute expiry and the parser object of the whole value -/
+theorem next_opaque_entry (cfg : DCfg) (ls : LState) (k : KeyE) (rest : Bytes)
+    (hls : ls.total = 0 ∧ ls.read = 0) (hwf : k.wf) (ho : k.obj.opaque) :
+    ∃ e ls', next cfg ls (k.enc ++ rest) = some (some e, ls', rest) ∧
+      e.key = k.key.val ∧ e.db = (ls.db : Int) ∧ e.expireAt = k.exp.at ∧
+      e.type = k.obj.rtype ∧ e.obj = pobjOf k.key.val k.obj ∧
+      ls'.db = ls.db ∧ ls'.total = 0 ∧ ls'.read = 0 :=
+  next_opaque cfg ls k rest hls hwf ho
+
+/-- module aux data under the `skip` policy leaves no entry: `Next` steps over module
+    id, items and EOF opcode and goes on with the following item (under the `fail`
+    policy — the default — the model, like the code, refuses the snapshot) -/
+theorem next_skips_module_aux (cfg : DCfg) (F : Nat) (ls : LState) (e : Entry) (id : Nat) (ops : List ModOp) (X : Bytes)
+    (hls : ls.total - ls.read = 0) (hid : id < 2 ^ 64) (hw : ∀ o ∈ ops, o.wf) (hpol : cfg.failModAux = false) :
+    nextLoop cfg (F + 1) ls e ((Item.moduleAux id ops).enc ++ X) = nextLoop cfg F ls e X :=
+  nextLoop_modaux cfg F ls e id ops X hls hid hw hpol
 
 /-! ## The file frame -/
 
@@ -499,7 +592,9 @@ requests tagged with their connection; every connection has its own selected
 database, the keyspaces are shared; requests are atomic). -/
 
 /-- the number of workers is irrelevant — for ANY entries the loader can produce
-    (an entry without database is a function library; no stream values), any
+    (an entry without database is a function library; values of every kind, stream values
+    included since session 4: whatever buffer `ExecCmd` of a stream runs on, it emits
+    XADD / XSETID / XGROUP / XCLAIM only, `execStream_names`), any
     existence table and any two numbers of workers: replaying the entries in
     snapshot order, each on the connection of the worker the fan-out routes it to,
     leaves the same keyspaces in every database (or fails on both), and the tool
@@ -509,8 +604,7 @@ database, the keyspaces are shared; requests are atomic). -/
 theorem fanout_workers_irrelevant (cfg : RCfg) (es : List Entry) (ex : Exists) (n1 n2 : Nat)
     (h1 : 0 < n1) (h2 : 0 < n2) (htick : cfg.tick = 0)
     (hdb : ∀ n : Nat, cfg.filterDb (n : Int) = false → 0 ≤ mapDb cfg (n : Int))
-    (hes : ∀ e ∈ es, ((e.db = -1 ∧ e.obj.rtype = 0xF5) ∨ ∃ n : Nat, e.db = (n : Int)) ∧
-      otypeOf e.obj.rtype ≠ some .stream) :
+    (hes : ∀ e ∈ es, (e.db = -1 ∧ e.obj.rtype = 0xF5) ∨ ∃ n : Nat, e.db = (n : Int)) :
     (applySched {} (schedOf (fanOutTrace cfg es 0 (List.replicate n1 {}) ex))).map (·.dbs) =
       (applySched {} (schedOf (fanOutTrace cfg es 0 (List.replicate n2 {}) ex))).map (·.dbs) ∧
     (fanOut cfg es 0 (List.replicate n1 {}) ex).2.2 = (fanOut cfg es 0 (List.replicate n2 {}) ex).2.2 := by
@@ -584,42 +678,162 @@ theorem fanout_parallel (d : DCfg) (cfg : RCfg) (f : FileE)
         ∃ M, applySched {} sched = some M ∧ ∀ D, KEq (M.dbs D) (M0.dbs D) :=
   any_interleaving_core d cfg f hwf hfoot hcar htick hrht hload hdb hdistinct n hn hpar
 
-/-- the statement at full strength — NOT proved (listed `partial`): as `full_sync_partial`, but
-    also for streams (consumer groups, PELs; `sval` = the denotation of a stream
-    description, which the specification side does not define yet), for module values
-    (which only travel by RESTORE) and for module aux items when the policy skips
-    them. Missing for it: `stream_roundtrip_stmt` (XSETID / XGROUP / XCLAIM through the
-    oracle), a `Next` lemma for module values and module aux data
-    (`skipModuleValue` over `modulePayload`). -/
-def valueWith (sval : StreamE → XStream) (o : ObjE) : Val :=
-  match o with
-  | .stream s => .stream (sval s)
-  | _ => o.value
+/-! ## The whole dataset, with streams, module values and module aux items -/
 
-def HoldsFull (sval : StreamE → XStream) (cfg : RCfg) (p : Nat × KeyE) (x : Bytes × Val × Nat) : Prop :=
-  x.1 = p.2.key.val ∧ x.2.2 = ttlOf cfg.now p.2.exp.at ∧
-  ((x.2.1 = valueWith sval p.2.obj ∧ (¬ viaRestore cfg p.2.obj ∨ p.2.obj.rtype = 4)) ∨
-   (x.2.1 = .restored (createValueDump p.2.obj.rtype p.2.obj.ser) ∧ viaRestore cfg p.2.obj))
+/-- **`full_sync_streams`** — `full_sync_partial` lifted to datasets WITH stream values
+    (RDB types 15 / 19 / 21 / 26: entries, last id, counters, consumer groups, PELs),
+    module values (type 7) and module aux items. For every well-formed dataset `f` whose
+    items are `carriedS` — as before for strings / lists / sets / sorted sets / hashes;
+    streams `sound` (what Redis guarantees, see `stream_roundtrip`); module values only
+    where they can travel by RESTORE (otherwise the tool refuses the sync, by design);
+    module aux items only under the `skip` policy (`d.failModAux = false`; under `fail`
+    the tool refuses the snapshot, by design) — and every configuration as in
+    `full_sync_partial`: `sendRdb` with one worker succeeds and its request log applied
+    to a target with empty databases leaves, in EVERY database, exactly the unfiltered
+    keys of `f` mapped there, in file order, each with the time to live of its absolute
+    expiry and its value (`HoldsS`): for a stream either the object RESTORE creates from
+    the byte-exact payload (type + serialization + version + CRC64; `raw_is_encode_opaque`)
+    or — RESTORE off / payload above `MaxProtoBulkLen` — the logical stream `StreamE.xval`
+    rebuilt by XADD / XSETID / XGROUP CREATE / XCLAIM; for a module value the restored
+    object. Module aux items leave no request. Remaining hypotheses: `hload`, `htick`,
+    `hrht`, `hdb`, `hdistinct`, `hpar` as in `full_sync_partial`. -/
+theorem full_sync_streams (d : DCfg) (cfg : RCfg) (f : FileE)
+    (hwf : f.wf) (hfoot : f.footer ≠ .bad) (hcar : ∀ i ∈ f.items, i.carriedS d cfg)
+    (hpar : cfg.parallel = 1) (htick : cfg.tick = 0) (hrht : cfg.replaceHashTag = false)
+    (hload : ∀ p ∈ f.keys, cfg.enableRestore = true → typeLoadable cfg.x.tgtMajor p.2.obj.rtype = true)
+    (hdb : ∀ n : Nat, cfg.filterDb (n : Int) = false → 0 ≤ mapDb cfg (n : Int))
+    (hdistinct : ((f.keys.filter (replayed cfg)).map (fun p => (mapDb cfg (p.1 : Int), p.2.key.val))).Nodup) :
+    ∃ log T, sendRdb d cfg [] (rdbFile f) = ([log], true) ∧ applyReqs {} log = some T ∧
+      ∀ D, Pointwise (HoldsS cfg) (expectedKeys cfg D f.keys) (T.dbs D) :=
+  full_sync_coreS d cfg f hwf hfoot hcar hpar htick hrht hload hdb hdistinct
 
-def carriedFull (d : DCfg) (cfg : RCfg) : Item → Prop
-  | .moduleAux .. => d.failModAux = false
-  | .key k =>
-    match k.obj with
-    | .stream _ => True
-    | .module2 .. => viaRestore cfg k.obj
-    | .raw .. => False
-    | o => o.nonempty ∧ o.members.Nodup
-  | _ => True
+/-- **`fanout_parallel_streams`** — `full_sync_streams` for ANY number of workers
+    (`parallel = n ≥ 1`), snapshot-order schedule: `sendRdb` succeeds with `n` request logs,
+    and the schedule of all requests in snapshot order — whose projection to every
+    connection `j` is exactly worker `j`'s log — leaves on the target with one connection
+    per worker, in every database, exactly the keys `full_sync_streams` names, with their
+    values (streams, module values included) and times to live. The number of workers is
+    irrelevant for entries of every kind (`fanout_workers_irrelevant`). Open for streams:
+    OTHER interleavings of the workers' requests (`fanout_parallel` proves them for the
+    other kinds; XGROUP / XCLAIM are not in `plainNames`). -/
+theorem fanout_parallel_streams (d : DCfg) (cfg : RCfg) (f : FileE)
+    (hwf : f.wf) (hfoot : f.footer ≠ .bad) (hcar : ∀ i ∈ f.items, i.carriedS d cfg)
+    (htick : cfg.tick = 0) (hrht : cfg.replaceHashTag = false)
+    (hload : ∀ p ∈ f.keys, cfg.enableRestore = true → typeLoadable cfg.x.tgtMajor p.2.obj.rtype = true)
+    (hdb : ∀ n : Nat, cfg.filterDb (n : Int) = false → 0 ≤ mapDb cfg (n : Int))
+    (hdistinct : ((f.keys.filter (replayed cfg)).map (fun p => (mapDb cfg (p.1 : Int), p.2.key.val))).Nodup)
+    (n : Nat) (hn : 1 ≤ n) (hpar : cfg.parallel = n) :
+    ∃ logs sched M, sendRdb d cfg [] (rdbFile f) = (logs, true) ∧ logs.length = n ∧
+      (∀ j, j < n → (sched.filter (fun p => p.1 == j)).map (·.2) = logs.getD j []) ∧
+      applySched {} sched = some M ∧
+      ∀ D, Pointwise (HoldsS cfg) (expectedKeys cfg D f.keys) (M.dbs D) :=
+  fanout_parallel_coreS d cfg f hwf hfoot hcar htick hrht hload hdb hdistinct n hn hpar
 
+/-- every dataset `full_sync_partial` carries is carried by `full_sync_streams`
+    (`carried → carriedS`), with the same per-key result (`HoldsS` = `Holds` off streams) -/
+theorem carried_carriedS (d : DCfg) (cfg : RCfg) (i : Item) (h : i.carried) : i.carriedS d cfg := by
+  cases i with
+  | moduleAux id ops => exact absurd h (by simp [Item.carried])
+  | key k =>
+    obtain ⟨hk, hne, hd⟩ := h
+    simp only [Item.carriedS]
+    cases hoo : k.obj <;> rw [hoo] at hk hne hd <;> first
+      | exact ⟨hk, hne, hd⟩
+      | exact absurd rfl hk
+  | _ => trivial
+
+/-! ## Onto a key that EXISTS on the target (re-sync), expansion path -/
+
+/-- **`expand_path_existing`** — an unsplit value (any string / list / set / sorted-set / hash
+    encoding, or a stream) that does not travel by RESTORE, replayed onto a key the target
+    ALREADY HOLDS (policy `replace`): `Replay` issues the probe, `DEL key`, the expansion, and
+    PEXPIRE iff the key has an expiry; it succeeds, and whatever the key held before — another
+    type, a stream with a higher last id, other groups and pending entries, a time to live —
+    is gone: the keyspace is the old one without the key, plus the key with exactly its
+    logical value and the time to live of its absolute expiry (for a stream: XADD would be
+    refused "equal or smaller" and XGROUP CREATE "BUSYGROUP" had the DEL been missed). -/
+theorem expand_path_existing (cfg : RCfg) (db : Int) (ex : Exists) (e : Entry) (k : Bytes) (o : ObjE) (ks : Keyspace)
+    (hobj : e.obj = pobjOf k o) (hkey : e.key = k)
+    (hcar : (o.kind ≠ .other ∧ o.wf ∧ o.nonempty ∧ o.members.Nodup) ∨ (∃ s, o = .stream s ∧ s.wf ∧ s.sound))
+    (hnv : ¬ viaRestore cfg o) (hrht : cfg.replaceHashTag = false) (hex : ex.has db k = true) :
+    (replayEntry cfg db ex e).1 =
+      [cmdB b!"exists" [k], cmdB b!"del" [k]] ++ o.cmdsS cfg.x k ++
+        (if e.expireAt ≠ 0 then [cmdB b!"pexpire" [k, natToDec (ttlOf cfg.now e.expireAt)]] else []) ∧
+    (replayEntry cfg db ex e).2.2 = true ∧
+    applyCmds ks (replayEntry cfg db ex e).1 =
+      some (del ks k ++ [(k, o.valueS cfg.x, ttlOf cfg.now e.expireAt)]) := by
+  rcases hcar with ⟨hk, hwf, hne, hd⟩ | ⟨s, rfl, hwf, hs⟩
+  · obtain ⟨hot, hnf1, hnf2, hnf3, hsplit, hfb⟩ := pobjOf_facts k o hk
+    obtain ⟨h1, h2⟩ := replay_expand_existingG cfg db ex e k o _ (o.cmds k) hobj hkey hot hnf1 hnf2 hnf3 hsplit hfb
+      (execCmd_pobjOf cfg.x k o hwf hk) hnv hrht hex
+    rw [cmdsS_plain cfg.x k o hk, valueS_plain cfg.x o hk]
+    refine ⟨h1, h2, ?_⟩
+    rw [h1]
+    exact apply_expand_existingG ks k (o.cmds k) o.value e.expireAt (ttlOf cfg.now e.expireAt)
+      (fun ks' hf => cmds_frame ks' k o hk hne hd hf) (fun h0 => by rw [h0]; exact ttlOf_zero _)
+  · have ho : (ObjE.stream s).opaque := ⟨hwf, hs⟩
+    obtain ⟨hot, _, _, _, _, _⟩ := opaque_rtype _ ho
+    have hpo := pobjOf_opaque k _ ho
+    obtain ⟨h1, h2⟩ := replay_expand_existingG cfg db ex e k (.stream s) .stream (s.cmds cfg.x k) hobj hkey hot
+      (by decide) (by decide) (by decide) (by rw [hpo]; simp [PObj.isSplited]) (by rw [hpo]; simp [PObj.firstBin])
+      (execCmd_streamObj cfg.x k s hwf hs) hnv hrht hex
+    refine ⟨h1, h2, ?_⟩
+    rw [h1]
+    exact apply_expand_existingG ks k (s.cmds cfg.x k) (.stream (s.xval cfg.x)) e.expireAt (ttlOf cfg.now e.expireAt)
+      (fun ks' hf => stream_cmds_apply ks' k cfg.x s hwf hs hf) (fun h0 => by rw [h0]; exact ttlOf_zero _)
+
+/-! ## The `Bad data format` fall-back (hypothesis `hload`), entry level
+
+`RedisSem.applyCmdsV v` is the oracle of a target of major version `v`: RESTORE of a value
+type it cannot load is answered with an error and has no effect. -/
+
+/-- **`restore_fallback_path`** — an unsplit value (any string / list / set / sorted-set /
+    hash encoding, or a stream) whose RESTORE payload fits but whose type the target
+    cannot load (e.g. a listpack hash or a type-21 stream into Redis 6): `Replay` issues
+    `restore key ttl payload …` — refused: `Bad data format` — and then, for a key that
+    does not exist, the SAME requests as with RESTORE off: probe, the expansion, PEXPIRE
+    iff the key has an expiry (defect G1 repaired: it had skipped probe and PEXPIRE);
+    it succeeds, and on a target of that version the requests leave the key with its
+    logical value and the time to live of its absolute expiry, everything else untouched. -/
+theorem restore_fallback_path (cfg : RCfg) (db : Int) (ex : Exists) (e : Entry) (k : Bytes) (o : ObjE) (ks : Keyspace)
+    (hobj : e.obj = pobjOf k o) (hkey : e.key = k)
+    (hcar : (o.kind ≠ .other ∧ o.wf ∧ o.nonempty ∧ o.members.Nodup) ∨ (∃ s, o = .stream s ∧ s.wf ∧ s.sound))
+    (hv : viaRestore cfg o) (hnl : typeLoadable cfg.x.tgtMajor o.rtype = false)
+    (hrht : cfg.replaceHashTag = false) (hex : ex.has db k = false) (hfresh : get ks k = none) :
+    (∃ opts, (replayEntry cfg db ex e).1 =
+      cmdB b!"restore" (k :: natToDec (ttlOf cfg.now e.expireAt) :: createValueDump o.rtype o.ser :: opts) ::
+        ([cmdB b!"exists" [k]] ++ o.cmdsS cfg.x k ++
+          (if e.expireAt ≠ 0 then [cmdB b!"pexpire" [k, natToDec (ttlOf cfg.now e.expireAt)]] else []))) ∧
+    (replayEntry cfg db ex e).2.2 = true ∧
+    applyCmdsV cfg.x.tgtMajor ks (replayEntry cfg db ex e).1 =
+      some (ks ++ [(k, o.valueS cfg.x, ttlOf cfg.now e.expireAt)]) := by
+  rcases hcar with ⟨hk, hwf, hne, hd⟩ | ⟨s, rfl, hwf, hs⟩
+  · obtain ⟨hot, hnf1, hnf2, hnf3, hsplit, hfb⟩ := pobjOf_facts k o hk
+    rw [cmdsS_plain cfg.x k o hk, valueS_plain cfg.x o hk]
+    exact restore_fallback_core cfg db ex e k o ks _ (o.cmds k) o.value hobj hkey hot hnf1 hnf2 hnf3 hsplit hfb
+      (execCmd_pobjOf cfg.x k o hwf hk) (cmds_not_restore o k) (cmds_frame ks k o hk hne hd hfresh) hv hnl hrht hex hfresh
+  · have ho : (ObjE.stream s).opaque := ⟨hwf, hs⟩
+    obtain ⟨hot, _, _, _, _, _⟩ := opaque_rtype _ ho
+    have hpo := pobjOf_opaque k _ ho
+    exact restore_fallback_core cfg db ex e k (.stream s) ks .stream (s.cmds cfg.x k) (.stream (s.xval cfg.x)) hobj hkey
+      hot (by decide) (by decide) (by decide)
+      (by rw [hpo]; simp [PObj.isSplited]) (by rw [hpo]; simp [PObj.firstBin])
+      (execCmd_streamObj cfg.x k s hwf hs) (cmdsS_not_restore cfg.x k (.stream s))
+      (stream_cmds_apply ks k cfg.x s hwf hs hfresh) hv hnl hrht hex hfresh
+
+/-- what is STILL open of the whole-file statement (listed `partial`): `full_sync_streams`
+    WITHOUT the hypothesis `hload`, on the version-aware target `applyReqsV` — a value whose
+    RESTORE the target refuses arrives expanded (`HoldsV`; `restore_fallback_path` is the
+    single-entry step of it). Also open, not in this statement: `ReplaceHashTag`, a clock
+    that advances during the replay, streams under more than one worker. -/
 def full_sync_stmt : Prop :=
-  ∃ sval : StreamE → XStream, ∀ (d : DCfg) (cfg : RCfg) (f : FileE),
-    f.wf → f.footer ≠ .bad → (∀ i ∈ f.items, carriedFull d cfg i) →
+  ∀ (d : DCfg) (cfg : RCfg) (f : FileE),
+    f.wf → f.footer ≠ .bad → (∀ i ∈ f.items, i.carriedS d cfg) →
     cfg.parallel = 1 → cfg.tick = 0 → cfg.replaceHashTag = false →
-    (∀ p ∈ f.keys, cfg.enableRestore = true → typeLoadable cfg.x.tgtMajor p.2.obj.rtype = true) →
     (∀ n : Nat, cfg.filterDb (n : Int) = false → 0 ≤ mapDb cfg (n : Int)) →
     ((f.keys.filter (replayed cfg)).map (fun p => (mapDb cfg (p.1 : Int), p.2.key.val))).Nodup →
-    ∃ log T, sendRdb d cfg [] (rdbFile f) = ([log], true) ∧ applyReqs {} log = some T ∧
-      ∀ D, Pointwise (HoldsFull sval cfg) (expectedKeys cfg D f.keys) (T.dbs D)
+    ∃ log T, sendRdb d cfg [] (rdbFile f) = ([log], true) ∧ applyReqsV cfg.x.tgtMajor {} log = some T ∧
+      ∀ D, Pointwise (HoldsV cfg) (expectedKeys cfg D f.keys) (T.dbs D)
 
 /-! Non-vacuity / check values -/
 
@@ -666,7 +880,7 @@ def exNode0 : SNodeE :=
   { w := SE.plain [], masterMs := 1, masterSeq := 1, masterFields := [.s6 [97], .s6 [98]], entries := exEntries }
 def exNode : SNodeE := { exNode0 with w := SE.plain exNode0.blob }
 example : exNode.wf := by decide +kernel
-example : ∀ e ∈ exNode.entries, e.idWf exNode.masterMs exNode.masterSeq := by
+theorem exNode_idWf : ∀ e ∈ exNode.entries, e.idWf exNode.masterMs exNode.masterSeq := by
   intro e he
   have he' : e ∈ exEntries := he
   simp only [exEntries, List.mem_cons, List.mem_nil_iff, or_false] at he'
@@ -739,5 +953,128 @@ example : ∃ (logs : List (List Cmd)) (M0 : MState),
       ∃ M, applySched {} sched = some M ∧ ∀ D, KEq (M.dbs D) (M0.dbs D) :=
   fanout_parallel { thr := 1 } { enableRestore := false, now := 5000, parallel := 3 } exFile (by decide)
     (by decide) (by decide) rfl rfl (fun _ _ h => by cases h) (fun n _ => by simp [mapDb]) (by decide) 3 (by decide) rfl
+
+
+/-! Non-vacuity of the stream / module / fall-back theorems (session 4) -/
+
+-- a type-21 stream over `exNode` (live 1-1, 1-2, 1-4; 1-3 deleted): last id 1-4, 4 entries added,
+-- max deleted 1-3; one group "g" (last delivered 1-2, 2 entries read) whose PEL holds 1-1 (consumer
+-- "a", delivered twice at 1000), 1-2 (consumer "b", once at 1001) and 1-3 - the DELETED entry - (consumer
+-- "d"); consumer "c" has nothing pending
+def exStream : StreamE :=
+  { ver := 3, nodes := [exNode], length := 3, lastMs := 1, lastSeq := 4, firstMs := 1, firstSeq := 1,
+    maxDelMs := 1, maxDelSeq := 3, entriesAdded := 4,
+    groups := [{ name := SE.plain [103], lastMs := 1, lastSeq := 2, entriesRead := 2,
+                 pel := [⟨1, 1, 1000, 2⟩, ⟨1, 2, 1001, 1⟩, ⟨1, 3, 1002, 1⟩],
+                 consumers := [⟨SE.plain [97], 5, 6, [(1, 1)]⟩, ⟨SE.plain [98], 5, 6, [(1, 2)]⟩,
+                               ⟨SE.plain [99], 7, 7, []⟩, ⟨SE.plain [100], 8, 8, [(1, 3)]⟩] }] }
+theorem exStream_wf : exStream.wf := by decide +kernel
+theorem exStream_sound : exStream.sound := by
+  refine ⟨by decide, by decide, by decide, ?_, by decide +kernel, by decide +kernel, by decide +kernel,
+    by decide, by decide, by unfold SIdmpE.sizes; decide, by unfold StreamE.counters; decide +kernel⟩
+  intro n hn
+  have : n = exNode := by simpa [exStream] using hn
+  subst this
+  exact exNode_idWf
+-- its logical value on a Redis 7 target …
+example : exStream.xval { tgtMajor := 7 } =
+    { entries := [⟨b!"1-1", [[97],[49],[98],[50]]⟩, ⟨b!"1-2", [[99],[51]]⟩, ⟨b!"1-4", [[97],[52],[98],[53]]⟩],
+      lastId := b!"1-4", entriesAdded := some b!"4", maxDeleted := some b!"1-3",
+      groups := [⟨[103], b!"1-2", some b!"2",
+        [⟨b!"1-1", [97], b!"1000", b!"2"⟩, ⟨b!"1-2", [98], b!"1001", b!"1"⟩], [[97], [98]]⟩] } := by decide +kernel
+-- (the pending id 1-3 of the deleted entry, and with it consumer "d", cannot be recreated by commands;
+--  the idle consumer "c" is dropped by the tool: known finding C03-F1 - a 6.2+ target could hold it)
+-- … and on a Redis 6 target (no counters); the consumers that are recreated
+example : (exStream.xval { tgtMajor := 6 }).entriesAdded = none ∧
+    ((exStream.xval { tgtMajor := 6 }).groups.map (·.entriesRead)) = [none] := by decide +kernel
+example : exStream.groups.map (SGroupE.consumersX exStream) = [[[97], [98]]] ∧
+    exStream.groups.map (SGroupE.consumersIdeal { tgtMajor := 6 } exStream) = [[[97], [98]]] ∧
+    exStream.groups.map (SGroupE.consumersIdeal { tgtMajor := 6, tgtMinor := 2 } exStream) = [[[97], [98], [99]]] := by
+  decide +kernel
+example : ∀ g ∈ exStream.groups, g.pelPartition := by
+  intro g hg
+  simp only [exStream, List.mem_singleton] at hg
+  subst hg
+  exact ⟨by decide, by decide⟩
+-- the expansion: 3 XADD, XSETID, XGROUP CREATE, XCLAIM (a), XCLAIM (b), nothing for "c", XCLAIM (d: ignored by the target)
+example : (exStream.cmds { tgtMajor := 7 } [115]).map (·.name) =
+    [b!"XADD", b!"XADD", b!"XADD", b!"XSETID", b!"XGROUP", b!"XCLAIM", b!"XCLAIM", b!"XCLAIM"] := by
+  decide +kernel
+example : exStream.rtype = 21 := by decide
+example : execStream { tgtMajor := 7 } exStream.rtype [115] exStream.ser = some (exStream.cmds { tgtMajor := 7 } [115]) ∧
+    applyCmds [] (exStream.cmds { tgtMajor := 7 } [115]) = some [([115], .stream (exStream.xval { tgtMajor := 7 }), 0)] := by
+  have := stream_roundtrip { tgtMajor := 7 } [115] exStream [] [] exStream_wf exStream_sound rfl
+  simpa using this
+-- an empty stream (all entries deleted) with a group: the MAXLEN 0 trick
+def exEmptyStream : StreamE :=
+  { ver := 1, nodes := [], length := 0, lastMs := 9, lastSeq := 0,
+    groups := [{ name := SE.plain [103], lastMs := 9, lastSeq := 0, entriesRead := 0, pel := [], consumers := [] }] }
+example : exEmptyStream.wf ∧ exEmptyStream.sound := by
+  refine ⟨by decide, by decide, by decide, by decide, ?_, by decide, by decide, ?_, by decide, by decide,
+    by unfold SIdmpE.sizes; decide, by unfold StreamE.counters; decide⟩
+  · intro n hn; cases hn
+  · intro n hn; cases hn
+example : (exEmptyStream.cmds { tgtMajor := 7 } [115]).map (·.name) = [b!"XADD", b!"XSETID", b!"XGROUP"] := by decide
+-- a module aux item is skipped, a module value travels by RESTORE, the stream (payload above
+-- MaxProtoBulkLen = 30) is expanded: full_sync_streams on such a file
+def exFileS : FileE :=
+  { version := 11,
+    items := [.moduleAux 5 [.uint 7, .str (SE.plain [1, 2])], .selectDb .b6 3,
+              .key { exp := .ms 9000, key := SE.plain [120], obj := .stream exStream },
+              .key { key := SE.plain [109], obj := .module2 9 [.str (SE.plain [1])] }] }
+def exCfgS : RCfg := { x := { tgtMajor := 8 }, now := 5000, maxBulk := 30 }
+theorem exFileS_wf : exFileS.wf := by decide +kernel
+theorem exFileS_carried : ∀ i ∈ exFileS.items, i.carriedS { failModAux := false } exCfgS := by
+  intro i hi
+  simp only [exFileS, List.mem_cons, List.mem_nil_iff, or_false] at hi
+  rcases hi with rfl | rfl | rfl | rfl
+  · rfl
+  · trivial
+  · exact exStream_sound
+  · show viaRestore exCfgS _
+    unfold viaRestore; decide
+example : ¬ viaRestore exCfgS (.stream exStream) := by unfold viaRestore; decide +kernel
+example : ∃ log T, sendRdb { failModAux := false } exCfgS [] (rdbFile exFileS) = ([log], true) ∧
+    applyReqs {} log = some T ∧
+    ∀ D, Pointwise (HoldsS exCfgS) (expectedKeys exCfgS D exFileS.keys) (T.dbs D) :=
+  full_sync_streams { failModAux := false } exCfgS exFileS exFileS_wf (by decide) exFileS_carried rfl rfl rfl
+    (fun _ _ _ => by simp [typeLoadable, exCfgS]) (fun n _ => by simp [mapDb, exCfgS]) (by decide)
+-- … and with three workers
+example : ∃ logs sched M, sendRdb { failModAux := false } { exCfgS with parallel := 3 } [] (rdbFile exFileS) = (logs, true) ∧
+    logs.length = 3 ∧ (∀ j, j < 3 → (sched.filter (fun p => p.1 == j)).map (·.2) = logs.getD j []) ∧
+    applySched {} sched = some M ∧
+    ∀ D, Pointwise (HoldsS { exCfgS with parallel := 3 }) (expectedKeys { exCfgS with parallel := 3 } D exFileS.keys) (M.dbs D) :=
+  fanout_parallel_streams { failModAux := false } { exCfgS with parallel := 3 } exFileS exFileS_wf (by decide)
+    (fun i hi => exFileS_carried i hi) rfl rfl
+    (fun _ _ _ => by simp [typeLoadable, exCfgS]) (fun n _ => by simp [mapDb, exCfgS]) (by decide) 3 (by decide) rfl
+-- the Bad-data-format fall-back: the listpack sorted set `exZset` (type 17) into a Redis 6 target
+def exEntryZ : Entry := { db := 0, key := [122], type := 17, expireAt := 6000, obj := pobjOf [122] exZset }
+example : applyCmdsV 6 [] (replayEntry { x := { tgtMajor := 6 }, now := 5000 } 0 [] exEntryZ).1 =
+    some [([122], exZset.value, 1000)] := by
+  have := (restore_fallback_path { x := { tgtMajor := 6 }, now := 5000 } 0 [] exEntryZ [122] exZset [] rfl rfl
+    (Or.inl (by decide)) (by unfold viaRestore; decide) (by decide) rfl rfl rfl).2.2
+  simpa [ObjE.valueS, exZset, ttlOf, exEntryZ] using this
+-- … the stream branch: the type-21 stream `exStream` into a Redis 6.2 target, next to another key
+def exEntryS : Entry := { db := 0, key := [115], type := 21, expireAt := 0, obj := pobjOf [115] (.stream exStream) }
+def exCfg6 : RCfg := { x := { tgtMajor := 6, tgtMinor := 2 }, now := 5000 }
+example : applyCmdsV exCfg6.x.tgtMajor [([111], .str [1], 0)] (replayEntry exCfg6 0 [] exEntryS).1 =
+    some [([111], .str [1], 0), ([115], .stream (exStream.xval exCfg6.x), 0)] := by
+  have := (restore_fallback_path exCfg6 0 [] exEntryS [115] (.stream exStream) [([111], .str [1], 0)] rfl rfl
+    (Or.inr ⟨exStream, rfl, exStream_wf, exStream_sound⟩) (by unfold viaRestore; decide +kernel) (by decide) rfl rfl rfl).2.2
+  simpa [ObjE.valueS, ttlOf, exEntryS] using this
+-- stream_roundtrip with a non-empty keyspace
+example : applyCmds [([111], .str [1], 7)] (exStream.cmds { tgtMajor := 7 } [115]) =
+    some [([111], .str [1], 7), ([115], .stream (exStream.xval { tgtMajor := 7 }), 0)] :=
+  (stream_roundtrip { tgtMajor := 7 } [115] exStream [] [([111], .str [1], 7)] exStream_wf exStream_sound rfl).2
+-- expand_path_existing: `exStream` onto a key that holds ANOTHER stream (last id 9-9, a group) with a TTL
+def exOldGroup : XGroup := ⟨[103], b!"9-9", none, [⟨b!"9-9", [122], b!"1", b!"1"⟩], [[122]]⟩
+def exOldStream : Val := .stream { entries := [⟨b!"9-9", [[111], [108]]⟩], lastId := b!"9-9", groups := [exOldGroup] }
+example : applyCmds [([115], exOldStream, 77)]
+      (replayEntry { enableRestore := false, now := 5000 } 0 [(0, [115])] { exEntryS with expireAt := 6000 }).1 =
+    some [([115], .stream (exStream.xval { tgtMajor := 7 }), 1000)] := by
+  have := (expand_path_existing { enableRestore := false, now := 5000 } 0 [(0, [115])] { exEntryS with expireAt := 6000 }
+    [115] (.stream exStream) [([115], exOldStream, 77)] rfl rfl
+    (Or.inr ⟨exStream, rfl, exStream_wf, exStream_sound⟩) (by unfold viaRestore; decide) rfl (by decide)).2.2
+  simpa [ObjE.valueS, ttlOf, exEntryS, del] using this
 
 end GunYu.Props.C03
